@@ -229,7 +229,12 @@ func build(w *world, c caseA) (*s3c.Req, string, error) {
 	case "copy-source-bucket":
 		r.Set("x-amz-copy-source", encHdr(h))
 	case "copy-source-version":
-		r.Set("x-amz-copy-source", w.fx.BktA+"/"+cat.KeyObj+"?versionId="+encHdr(h))
+		if w.fx.HasVer && c.Dup%2 == 1 {
+			// a source that has versions: the id is joined below that key's directory in the versions store
+			r.Set("x-amz-copy-source", w.fx.BktV+"/"+cat.KeyVer+"?versionId="+encHdr(h))
+		} else {
+			r.Set("x-amz-copy-source", w.fx.BktA+"/"+cat.KeyObj+"?versionId="+encHdr(h))
+		}
 	case "admin-bucket":
 		setQ("bucket", h)
 	case "admin-owner":
@@ -237,9 +242,24 @@ func build(w *world, c caseA) (*s3c.Req, string, error) {
 	case "admin-access":
 		setQ("access", h)
 	case "delete-key":
-		r.Body = s3c.DeleteXML([]s3c.KV{{K: h}}, false)
+		// alone, or in front of / between harmless entries (keys that do not exist)
+		list := []s3c.KV{{K: h}}
+		switch c.Dup {
+		case 1:
+			list = []s3c.KV{{K: h}, {K: "no-such-key-1"}}
+		case 2:
+			list = []s3c.KV{{K: "no-such-key-0"}, {K: h}, {K: "no-such-key-2"}}
+		}
+		r.Body = s3c.DeleteXML(list, false)
 	case "delete-version":
-		r.Body = s3c.DeleteXML([]s3c.KV{{K: cat.KeyObj, V: h}}, false)
+		list := []s3c.KV{{K: cat.KeyObj, V: h}}
+		switch c.Dup {
+		case 1:
+			list = []s3c.KV{{K: cat.KeyObj, V: h}, {K: "no-such-key-1"}}
+		case 2:
+			list = []s3c.KV{{K: "no-such-key-0"}, {K: cat.KeyObj, V: h}, {K: "no-such-key-2"}}
+		}
+		r.Body = s3c.DeleteXML(list, false)
 	default: // a query parameter of that name
 		setQ(c.Param, h)
 	}
@@ -437,6 +457,10 @@ func genCase(t *rapid.T) caseA {
 		ups := []int{2, 2, 2, 2, 1, 3, 0, 4, 5, 11}
 		if c.Param == "bucket" || c.Param == "copy-source-bucket" || c.Param == "admin-bucket" {
 			ups = []int{1, 1, 1, 1, 2, 3, 0, 4, 5, 11}
+		}
+		if c.Param == "versionId" || c.Param == "copy-source-version" || c.Param == "delete-version" {
+			// version ids are joined six levels below the sandbox area (<versions dir>/<bucket>/aa/bb/cc/<hash>/)
+			ups = []int{6, 6, 6, 6, 5, 7, 2, 1, 4, 11}
 		}
 		up := rapid.SampledFrom(ups).Draw(t, "up")
 		s := strings.Repeat("../", up)
